@@ -1197,7 +1197,7 @@ func TestCheck(t *testing.T) {
 		runChild(c, t, cat)
 		return
 	}
-	c.Rule = "per RPC of HydraideService_ServiceDesc: a valid request that reaches the engine, damaged in 1-3 fields (boundary / malformed value of that field's kind: swamp names with 0,1,2,4 parts and empty parts, empty/absent/duplicated/huge lists, absent and empty sub-messages, out-of-range enums, min/max/negative numbers, NaN/Inf, 65 535..70 000-byte keys, invalid and hostile msgpack, out-of-range timestamps), or a request filled field by field from the same pools, or no request message at all on a client stream; the first cases of every unit are a deterministic sweep (each numeric/enum field of the valid request x the boundary values of its kind, most extreme first); every accepted RegisterSwamp/DeRegisterSwamp is followed by valid Set/Get/idle/Set/Get/Delete/Count on a swamp its pattern covers, every granted Lock by Heartbeat/Unlock/Lock-again/Unlock, every subscription by data changes before and after the hang-up, every batch by 12 virtual idle seconds, shutdown and reload, all under the same oracles (a death of the process is attributed to the sequence); half run through the generated grpc handlers in a synctest bubble, half over grpc/bufconn; non-trivial = not the undamaged valid request; distinct = distinct (mode, RPC, request bytes)"
+	c.Rule = "per RPC of HydraideService_ServiceDesc: a valid request that reaches the engine, damaged in 1-3 fields (boundary / malformed value of that field's kind: swamp names with 0,1,2,4 parts and empty parts, empty/absent/duplicated/huge lists, absent and empty sub-messages, out-of-range enums, min/max/negative numbers, NaN/Inf, 65 535..70 000-byte keys, invalid and hostile msgpack, out-of-range timestamps), or a request filled field by field from the same pools, or no request message at all on a client stream; the first cases of every unit are a deterministic sweep (each numeric/enum field of the valid request x the boundary values of its kind, most extreme first); every accepted RegisterSwamp/DeRegisterSwamp is followed by valid Set/Get/idle/Set/Get/Delete/Count on a swamp its pattern covers, every granted Lock by Heartbeat/Unlock/Lock-again/Unlock, every subscription by data changes before and after the hang-up, the four patch RPCs then sweep (stored array x index relative to its length: 0, len-1, len, len+1, -1, -len, -len-1, -len-5, huge, MinInt64 x path in an op | in a condition) against expired records, checked for one status per addressed/selected key and unchanged bodies of refused patches; every request that names a swamp is followed by a well-formed PatchExpiredTreasures on the target swamps (after a patch sweep also ShiftExpiredTreasures, which must still hand out every record that was expired); a request parked on a mutex with no runnable goroutine in the bubble is reported from a goroutine dump; every batch by 12 virtual idle seconds, shutdown and reload, all under the same oracles (a death of the process is attributed to the sequence); half run through the generated grpc handlers in a synctest bubble, half over grpc/bufconn; non-trivial = not the undamaged valid request; distinct = distinct (mode, RPC, request bytes)"
 	c.Assumptions = []string{
 		"a request is what the server can receive: every generated message is marshalled and unmarshalled first (nil list elements, invalid UTF-8 and other states that cannot cross the wire are not generated)",
 		"a recovered handler panic is a violation only when the client is told OK (the recover path returns nil, nil, which grpc delivers as an empty successful reply); recovered panics that surface as an error status are counted, not reported",
